@@ -178,6 +178,8 @@ def main(argv):
 
 def run(prop, tier, seed, replay, scratch, t0):
     import impl, corr, gen
+    # how many times the base number of generated cases the quick tier runs (kept so that every quick check takes well under a minute)
+    os.environ.setdefault('VERIF_QUICK_SCALE', str({'C09': 1, 'C10': 1, 'C14': 1, 'C06': 2, 'C01': 2, 'C08': 2, 'C19': 2}.get(prop, 4)))
     mod = importlib.import_module(f'props.{prop}')
     build = prepare_build(prop, scratch, tier)
     known = load_known(prop)
